@@ -245,12 +245,17 @@ impl Tracker {
                         self.kill_file(&v);
                     }
                     self.kill_file(p);
+                    // a removed directory's name is never reused: removals of
+                    // its former entries may still be pending (known finding
+                    // `resurrected-children`)
+                    self.dead.insert(p.clone(), true);
                 }
                 return;
             }
             Op::RemoveDir { p, .. } => {
                 if is_dir(t, p) && t.lookup(p).map(|i| t.dir(i).is_empty()).unwrap_or(false) {
                     self.kill_file(p);
+                    self.dead.insert(p.clone(), true);
                 }
                 return;
             }
